@@ -350,6 +350,9 @@ class Pacing:
         if k in ("mkdir", "makedirs"):
             self.blocked.add(op[1])
             self.arrived.add(op[1])
+            if k == "makedirs":
+                # nested directories have just been created too: renaming the top would change their names
+                self.blocked.update(join(op[1], rel) for rel, kind in op[2] if kind == "d")
         elif k in ("rmdir", "rmtree"):
             self.blocked.add(op[1])
         elif k in ("rename", "replace") and model_before.kind(op[1]) == "d":
@@ -396,6 +399,8 @@ def candidate_ops(m: Model, opts):
     for p in free:
         ops.append(("create", p))
         ops.append(("mkdir", p))
+        if opts.get("makedirs") and p.count("/") + 2 < maxdepth + 1:
+            ops.append(("makedirs", p, None))
     for f in m.files():
         ops += [("write", f), ("read", f), ("chmod", f), ("unlink", f)]
     for d in m.dirs():
@@ -445,7 +450,9 @@ def draw_op(draw, m, pc, opts):
     if not cands:
         return None
     kinds = sorted({op[0] for op in cands})
-    kind = draw(st.sampled_from([k for k in kinds for _ in range(WEIGHT.get(k, 1))]))
+    wt = dict(WEIGHT, makedirs=4)
+    wt.update(opts.get("weights") or {})
+    kind = draw(st.sampled_from([k for k in kinds for _ in range(wt.get(k, 1))] or kinds))
     sub = [op for op in cands if op[0] == kind]
     if kind in ("rename", "replace", "move_out", "rmtree") and draw(st.integers(0, 2)) > 0:
         dsub = [op for op in sub if m.kind(op[1]) == "d"]
@@ -453,6 +460,23 @@ def draw_op(draw, m, pc, opts):
     op = draw(st.sampled_from(sub))
     if kind == "move_out":
         op = ("move_out", op[1], f"o{next(m.outn)}")
+    elif kind == "makedirs":
+        # nested creation burst: the directory plus generated content, issued back to back
+        room = opts.get("depth", 3) - (op[1].count("/") + 1)
+        t = {"": "d"}
+        content = []
+        for _ in range(draw(st.integers(1, 5))):
+            ds = sorted(d for d, k in t.items() if k == "d" and (d.count("/") + 1 if d else 0) < room)
+            if not ds:
+                break
+            d = draw(st.sampled_from(ds))
+            n = draw(st.sampled_from(opts.get("names", NAMES)))
+            q = join(d, n)
+            if q in t:
+                continue
+            t[q] = draw(st.sampled_from("dfd"))
+            content.append([q, t[q]])
+        op = ("makedirs", op[1], content)
     return op
 
 
